@@ -10,8 +10,8 @@ import json
 def corrupt(lines):
     for i, l in enumerate(lines):
         e = json.loads(l)
-        if e["all"][0] == "ok" and len(e["all"][1]) >= 2:
-            e["all"][1] = e["all"][1][1:]
+        if e["all"][0] == "ok" and len(e["all"][1]) >= 1:
+            e["all"][1] = e["all"][1] + ["notRead"]          # a name the formula does not read
             return i, json.dumps(e)
     raise RuntimeError("nothing to corrupt")
 
